@@ -201,6 +201,50 @@ pub fn direct_long(prop: &str, seed: u64, max_n: usize, types: Vec<String>, emb_
                 }
             }
         }
+        // ---- the empty estimator is an exact identity also where the stored sums sit on a mathematical
+        // bound by a rounding error: two-valued samples of full-mantissa values (excess kurtosis -2,
+        // sum_4 = sum_2^2 / n up to rounding), every length 2..40, merged with a fresh estimator both ways
+        fn two_valued<T: MomT>(rep: &mut Report) {
+            let bits = |t: &T| -> Vec<(String, Option<u64>)> {
+                let mut v = Vec::new();
+                t.observe(&mut v);
+                v.into_iter().map(|(a, x)| (a.name(), x.map(|f| if f.is_nan() { u64::MAX } else { f.to_bits() }))).collect()
+            };
+            for &(a, b) in &[(0.1f64, 0.7f64), (0.3, 0.4), (0.1, 0.2), (1.1, -2.3), (1.0e9 + 0.1, 1.0e9 + 0.7), (1.0e-20 / 3.0, 2.0e-20 / 3.0)] {
+                for n in 2..=40usize {
+                    for pattern in 0..2 {
+                        rep.replays += 1;
+                        let mut t = T::new();
+                        for i in 0..n {
+                            // alternating, or a block of a followed by a block of b
+                            let x = if pattern == 0 { if i % 2 == 0 { a } else { b } } else if i < n / 2 { a } else { b };
+                            t.add(x);
+                        }
+                        let before = bits(&t);
+                        let mut t1 = t.clone();
+                        t1.merge(&T::new());
+                        let mut t2 = T::default_();
+                        t2.merge(&t);
+                        rep.evaluations += 2;
+                        for (which, got) in [("merging a fresh estimator into it", bits(&t1)), ("merging it into a fresh estimator", bits(&t2))] {
+                            if let Some(k) = (0..before.len()).find(|&k| before[k] != got[k]) {
+                                rep.violation(json!({"property": "C11", "family": "long", "type": T::NAME, "embedding": "two-valued full-mantissa sample",
+                                    "history": {"values": [a, b], "n": n, "pattern": pattern}, "accessor": before[k].0,
+                                    "what": format!("{} changed {}: {:?} -> {:?} (bit patterns)", which, before[k].0, before[k].1, got[k].1),
+                                    "signature": format!("C11|{}|identity-two-valued", T::NAME)}));
+                                return;
+                            }
+                        }
+                    }
+                }
+            }
+        }
+        two_valued::<average::Mean>(rep);
+        two_valued::<average::Variance>(rep);
+        two_valued::<average::Skewness>(rep);
+        two_valued::<average::Kurtosis>(rep);
+        two_valued::<average::Moments4>(rep);
+        two_valued::<m6::M6>(rep);
         rep.behaviours += 1;
         rep.nontrivial.insert(1);
         rep.nontrivial.insert(2);
